@@ -2,6 +2,7 @@ import Proofs.Machine.Passthrough
 import Proofs.Machine.GlobalOrderLazy
 import Proofs.Ingest
 import Proofs.AnsiGit
+import Proofs.Gates
 /-!
 C04 — text that is not diff/blame/grep output passes through byte for byte.
 
@@ -432,5 +433,167 @@ theorem file_header_after_hunk_without_name_lines :
      | .ok m => m.out.map (fun r => (r.src, r.kind))
      | .error _ => []) = [(1, .blank), (1, .hunkHeader), (2, .zero), (3, .blank), (3, .file), (4, .blank), (4, .file)] := by
   decide
+
+/-! ### Claim gates: which handler may take a line outside any diff section, and who has to say so
+
+The handlers between `handle_hunk_line` and `emit_line_unchanged` (`handle_git_show_file_line`,
+`handle_blame_line`, `handle_grep_line`) and `handle_diff_stat_line` are not keyed on a literal marker.
+`Generated.ClaimGates` holds, per handler, the decision tree read from the Rust source on every run
+(`tools/extractors/gates.py`): which state, which calling process, which prefix, which configuration
+value (= option value), which regex is asked before the handler returns `Ok(true)`. The theorems below
+quantify over ALL environments `e : Gates.Env` — every valuation of the configuration fields
+(`e.option`: any option values), of the regexes not named in the hypotheses (`e.regex`) and of the
+conditions the reader could not interpret (`e.other`). Each is proved by evaluating the over-approximation
+`Gates.may` on the generated tree (finite: `decide`) and `Gates.claims_may`. A way to claim a line that does
+not ask the calling process (a fallback switched on by an option, a dropped guard) is a new branch of the
+tree on which `may` is true: the proof fails. -/
+
+section ClaimGates
+open Generated.ClaimGates Gates
+
+/-- **`grep_gate_needs_a_grep_tool`**: when the calling process is not a grep tool (`git grep`, `rg` & co.),
+`handle_grep_line` takes no line that does not begin with `{` (an `rg --json` record) — in any state,
+under any option values (`--grep-output-type` and every other configuration field), whatever the five
+grep regexes say about the line. -/
+theorem grep_gate_needs_a_grep_tool (e : Env) (hc : e.caller ∈ callers) (hng : e.caller ∉ grepTools)
+    (hbrace : e.startsWith .line "{" = false) : claims e grep = false := by
+  have tbl : ∀ c ∈ callers, c ∉ grepTools → may (knowOf none (some c) [.pfx .line "{"]) grep = false := by decide
+  refine not_claims_of_may_false (tbl e.caller hc hng) e (by simp) (by simp) ?_
+  intro c hm
+  simp only [List.mem_singleton] at hm
+  subst hm
+  exact hbrace
+
+/-- **`blame_gate_needs_the_blame_regex`**: `handle_blame_line` takes no line that `BLAME_LINE_REGEX` does not
+match — whatever the calling process, the state and the option values (`--blame-format`,
+`--blame-timestamp-format`, …) are. -/
+theorem blame_gate_needs_the_blame_regex (e : Env) (hre : e.regex "BLAME_LINE_REGEX" = false) :
+    claims e blame = false := by
+  have tbl : may (knowOf none none [.regex "BLAME_LINE_REGEX"]) blame = false := by decide
+  refine not_claims_of_may_false tbl e (by simp) (by simp) ?_
+  intro c hm
+  simp only [List.mem_singleton] at hm
+  subst hm
+  exact hre
+
+/-- **`git_show_file_gate_needs_git_show`**: outside its own state, `handle_git_show_file_line` takes a line
+only when delta was called by `git show` — under any option values. -/
+theorem git_show_file_gate_needs_git_show (e : Env) (hc : e.caller ∈ callers) (hns : e.caller ≠ "GitShow")
+    (hs : e.state ∈ states) (hst : e.state ≠ "GitShowFile") : claims e gitShowFile = false := by
+  have tbl : ∀ c ∈ callers, c ≠ "GitShow" → ∀ s ∈ states, s ≠ "GitShowFile" →
+      may (knowOf (some s) (some c) []) gitShowFile = false := by decide
+  exact not_claims_of_may_false (tbl e.caller hc hns e.state hs hst) e (by simp) (by simp) (by simp)
+
+/-- **`diff_stat_gate_needs_relative_paths`**: `handle_diff_stat_line` takes a line only with
+`relative-paths` switched on, … -/
+theorem diff_stat_gate_needs_relative_paths (e : Env) (h : e.option "relative_paths" = false) :
+    claims e diffStat = false := by
+  have tbl : may (knowOf none none [.option "relative_paths"]) diffStat = false := by decide
+  refine not_claims_of_may_false tbl e (by simp) (by simp) ?_
+  intro c hm
+  simp only [List.mem_singleton] at hm
+  subst hm
+  exact h
+
+/-- … **`diff_stat_gate_needs_a_leading_blank`**: only a line that begins with a blank, … -/
+theorem diff_stat_gate_needs_a_leading_blank (e : Env) (h : e.startsWith .line " " = false) :
+    claims e diffStat = false := by
+  have tbl : may (knowOf none none [.pfx .line " "]) diffStat = false := by decide
+  refine not_claims_of_may_false tbl e (by simp) (by simp) ?_
+  intro c hm
+  simp only [List.mem_singleton] at hm
+  subst hm
+  exact h
+
+/-- … **`diff_stat_gate_needs_the_diff_stat_regex`**: and only one that `DIFF_STAT_LINE_REGEX` matches;
+in every state and for every other option value. -/
+theorem diff_stat_gate_needs_the_diff_stat_regex (e : Env) (h : e.regex "DIFF_STAT_LINE_REGEX" = false) :
+    claims e diffStat = false := by
+  have tbl : may (knowOf none none [.regex "DIFF_STAT_LINE_REGEX"]) diffStat = false := by decide
+  refine not_claims_of_may_false tbl e (by simp) (by simp) ?_
+  intro c hm
+  simp only [List.mem_singleton] at hm
+  subst hm
+  exact h
+
+/-- **`gate_states_as_in_the_machine_model`**: the states in which the source lets each of the four
+handlers look at a line are the ones the machine model (`handleBlame`, `handleGrep`, `handleGitShowFile`,
+`handleDiffStat`) builds in: Blame/Unknown, Grep/Unknown, Unknown/GitShowFile, CommitMeta/Unknown. In no
+other state can the handler claim, whatever the rest says. -/
+theorem gate_states_as_in_the_machine_model :
+    (∀ s ∈ states, s ∉ ["Blame", "Unknown"] → may (knowOf (some s) none []) blame = false) ∧
+    (∀ s ∈ states, s ∉ ["Grep", "Unknown"] → may (knowOf (some s) none []) grep = false) ∧
+    (∀ s ∈ states, s ∉ ["Unknown", "GitShowFile"] → may (knowOf (some s) none []) gitShowFile = false) ∧
+    (∀ s ∈ states, s ∉ ["CommitMeta", "Unknown"] → may (knowOf (some s) none []) diffStat = false) := by
+  decide
+
+/-- … and every handler that stands between `handle_hunk_line` and `should_skip_line` in `consume` has a
+gate here (the extractor stops when it meets one it cannot read). -/
+theorem tail_handlers_all_gated : ∀ h ∈ tailHandlers, (gateOf h).isSome = true := by decide
+
+/-- the hypotheses are not vacuous, and the gates are not trivially closed: with a grep tool calling, a
+line that the loosest grep regex matches IS claimed; a line matched by the blame regex (and whose
+timestamp and line number parse) IS claimed; `git show` output IS claimed -/
+def demoEnv (caller : String) : Env :=
+  { state := "Unknown", caller := caller, startsWith := fun _ _ => false, option := fun _ => false,
+    regex := fun n => n == "GREP_LINE_REGEX_ASSUMING_NO_INTERNAL_SEPARATOR_CHARS" || n == "BLAME_LINE_REGEX",
+    other := fun _ => true }
+
+example : claims (demoEnv "OtherGrep") grep = true ∧ claims (demoEnv "None") grep = false ∧
+    claims (demoEnv "None") blame = true ∧ claims (demoEnv "GitShow") gitShowFile = true ∧
+    claims (demoEnv "GitDiff") gitShowFile = false := by decide
+
+/-- **`no_option_makes_a_handler_claim_text`** (all four gates at once). Delta was started by something
+that is neither a grep tool nor `git show`; the machine is outside any construct (state Unknown or
+CommitMeta); the line does not begin with `{`, is not matched by the blame regex, and does not begin with a
+blank or is not matched by the diff-stat regex. Then none of the four handlers claims it — for every
+valuation of the configuration fields (no value of `--grep-output-type`, `--blame-format`, `--relative-paths`
+or any other option changes that), of the remaining regexes and of the uninterpreted conditions. -/
+theorem no_option_makes_a_handler_claim_text (e : Env) (hc : e.caller ∈ callers) (hng : e.caller ∉ grepTools)
+    (hns : e.caller ≠ "GitShow") (hst : e.state = "Unknown" ∨ e.state = "CommitMeta")
+    (hbrace : e.startsWith .line "{" = false) (hbl : e.regex "BLAME_LINE_REGEX" = false)
+    (hds : e.startsWith .line " " = false ∨ e.regex "DIFF_STAT_LINE_REGEX" = false) :
+    claims e diffStat = false ∧ claims e gitShowFile = false ∧ claims e blame = false ∧ claims e grep = false := by
+  refine ⟨?_, ?_, blame_gate_needs_the_blame_regex e hbl, grep_gate_needs_a_grep_tool e hc hng hbrace⟩
+  · rcases hds with h | h
+    · exact diff_stat_gate_needs_a_leading_blank e h
+    · exact diff_stat_gate_needs_the_diff_stat_regex e h
+  · refine git_show_file_gate_needs_git_show e hc hns ?_ ?_
+    · rcases hst with h | h <;> rw [h] <;> decide
+    · rcases hst with h | h <;> rw [h] <;> decide
+
+example : (demoEnv "GitLog").caller ∈ callers ∧ (demoEnv "GitLog").caller ∉ grepTools := by decide
+
+/-- **`passthrough_whatever_the_options`**: the gates composed with the state machine. `l` is a line met
+outside any diff section that carries no literal marker and is not a commit line; `e` describes it
+(no `{` in front, not matched by the blame regex) and a calling process that is not a grep tool; the two
+per-line facts the machine model takes from the implementation are what the gates say (`l.blame` only if the
+blame gate claims, `l.grep ≠ 0` only if the grep gate claims: the correspondence run compares exactly this).
+Then, for every configuration of the machine model AND every option valuation of `e`, the handler chain ends
+in `emit_line_unchanged`: one raw row with the line as received, state unchanged. -/
+theorem passthrough_whatever_the_options (cfg : Machine.Cfg) (m : Machine.M) (l : Machine.L) (e : Env)
+    (hst : m.st = .unknown ∨ m.st = .commitMeta) (hsrc : m.source ≠ .diffUnified)
+    (hcr : l.commitRe = false) (mk : NoMarker l)
+    (hc : e.caller ∈ callers) (hng : e.caller ∉ grepTools)
+    (hbrace : e.startsWith .line "{" = false) (hbl : e.regex "BLAME_LINE_REGEX" = false)
+    (hb : l.blame = true → claims e blame = true) (hg : l.grep ≠ 0 → claims e grep = true) :
+    ∃ m', Machine.chain cfg l Generated.handlerOrder m = .ok m' ∧ m'.st = m.st ∧
+      Machine.timeline m' = Machine.timeline m ++ [{ kind := .raw, text := l.raw, src := m.n }] := by
+  have h1 := blame_gate_needs_the_blame_regex e hbl
+  have h2 := grep_gate_needs_a_grep_tool e hc hng hbrace
+  have no : Machine.NotOpener l :=
+    { commit := hcr, diff := mk.diff, hunkHeader := mk.hunkHeader, oldMode := mk.oldMode, newMode := mk.newMode,
+      onlyIn := mk.onlyIn, binary := mk.binary, submodule := mk.submodule,
+      blame := by
+        cases hbv : l.blame with
+        | false => rfl
+        | true => rw [hb hbv] at h1; cases h1
+      grep := by
+        cases hgv : l.grep with
+        | zero => rfl
+        | succ k => rw [hg (by rw [hgv]; exact Nat.succ_ne_zero k)] at h2; cases h2 }
+  exact Machine.passthrough_exact cfg m l hst hsrc no
+
+end ClaimGates
 
 end C04
